@@ -20,7 +20,7 @@ from ..progen import mkfunc, call
 
 def base_program():
     return {
-        "funcs": [mkfunc("f", calls=[call("g"), call("h"), call("k")], reads=["G", "GL", "cfg.X", "cfg.Z"], rich=False),
+        "funcs": [mkfunc("f", calls=[call("g"), call("h"), call("k"), call("abs")], reads=["G", "GL", "cfg.X", "cfg.Z"], rich=False),
                   mkfunc("g", reads=["G", "GV"], rich=False),
                   mkfunc("h", kind="plain", reads=["GL", "HV"], rich=False),
                   # reference cycles: r refers to itself, p and q to each other (only versions are asked, nothing is called)
@@ -29,13 +29,13 @@ def base_program():
         "vars": {"G": 5, "GL": [1, 2], "HV": 1, "GV": 1},
         "classes": {"C1": {"X": 10}, "C2": {"X": 20}},
         "bindings": {"cfg": "C1"},
-        "order": ["f", "g", "h", "k", "r", "p", "q"],
+        "order": ["f", "g", "h", "k", "r", "p", "q", "abs"],
         "late": ["k"],
     }
 
 
 QUERIED = ("f", "g", "r", "p", "q")
-EVENTS = ["redef_f", "redef_g", "redef_h", "redef_r", "redef_q", "redef_h_default", "redef_h_kwdefault", "rebind_G", "rebind_HV", "rebind_GV", "mutate_GL", "def_k_helper", "def_k_var", "toggle_g_kind",
+EVENTS = ["redef_f", "redef_g", "redef_h", "redef_r", "redef_q", "redef_h_default", "redef_h_kwdefault", "rebind_G", "rebind_HV", "rebind_GV", "mutate_GL", "def_k_helper", "def_k_var", "def_abs_helper", "toggle_g_kind",
           "rebind_cfg", "def_attr_Z", "clone_f", "wrap_f", "query_f", "query_g"]
 
 
@@ -62,6 +62,8 @@ def apply_to_ast(P, ev):
     elif ev == "def_k_var":
         Q["funcs"] = [f for f in Q["funcs"] if f["name"] != "k"]
         Q["vars"]["k"] = 3
+    elif ev == "def_abs_helper":  # a module-level helper that takes the name of a builtin the function was using
+        Q["funcs"] = Q["funcs"] + [mkfunc("abs", kind="plain", rich=False)]
     elif ev == "toggle_g_kind":
         fm["g"]["kind"] = "plain" if fm["g"]["kind"] == "memento" else "memento"
     elif ev == "rebind_cfg":
@@ -79,6 +81,8 @@ def enabled(P, ev):
         return "k" not in fm
     if ev == "def_k_var":
         return "k" not in P["vars"]
+    if ev == "def_abs_helper":
+        return "abs" not in fm
     if ev == "query_g":
         return fm["g"]["kind"] == "memento"
     if ev == "def_attr_Z":
